@@ -356,6 +356,9 @@ func (e *Engine) heapGet(s *State, name, sort string) string {
 			pend = true
 		}
 	}
+	if pend && e.immutableHeap(name) {
+		pend = false
+	}
 	if pend {
 		n := e.fresh("H!" + name)
 		s.add("(declare-const " + n + " " + sort + ")")
@@ -396,6 +399,9 @@ func (e *Engine) heapHavoc(s *State, name string) {
 	sort := e.heapSorts[name]
 	if sort == "" {
 		return
+	}
+	if e.immutableHeap(name) {
+		return // written only during construction of its object (checked structurally)
 	}
 	// make sure the initial constant exists so old() stays meaningful
 	e.heapGet(s, name, sort)
